@@ -9,10 +9,10 @@ Ev == Traces[tid].ev
 E == Ev[l]
 C == Traces[tid].cfg
 TInit == /\ tid \in 1..NT /\ l = 1
-         /\ na = C.na /\ neig = C.neig /\ nguess = C.neig /\ it = 0 /\ applied = <<C.neig>>
+         /\ na = C.na /\ neig = C.neig /\ nguess = C.nguess /\ it = 0 /\ applied = <<C.nguess>>
          /\ residOk = FALSE /\ best = 0 /\ cur = 0 /\ pc = "loop" /\ ret = 0
 IsEvent(a) == l <= Len(Ev) /\ E.a = a /\ l' = l + 1 /\ UNCHANGED tid
-TFirst == IsEvent("apply") /\ l = 1 /\ E.ncols = neig /\ UNCHANGED vars
+TFirst == IsEvent("apply") /\ l = 1 /\ E.ncols = nguess /\ UNCHANGED vars
 \* every further application of the operator is one expansion of the search space
 TExpand == /\ IsEvent("apply") /\ l > 1
            /\ \E im \in BOOLEAN : Iterate(FALSE, im)
